@@ -135,6 +135,10 @@ func init() {
 		// ---- verification HISTORY: the three VerifyChain functions as programs of the chain-verification IR
 		// (coq/C10/ChainIR.v), the inventory of package-level mutable state, and what the verification path touches
 		c10Chain(o)
+
+		// ---- round 3: how the client handles TIME (which timeouts tsclient.New attaches to the HTTP client, whether the
+		// body read in tsClient.do is covered, the exits of the failover loop)
+		c10Timing(o)
 	}
 }
 
@@ -1176,4 +1180,615 @@ func c10Program(o *out, dir, recv, name, coqName string, vars map[string]map[str
 		o.f("; NOT UNDERSTOOD: %s", strings.ReplaceAll(strings.Join(t.unknown, " | "), "*)", "* )"))
 	}
 	o.f(" *)\n")
+}
+
+// ======================================================================================================================
+// C10 round 3: TIME.
+//
+//   tsclient.New       which duration fields of http.Client / http.Transport / net.Dialer are set, and to what
+//                      (translated as functions of conf.Timeout, in nanoseconds; an unset field is 0 = no limit)
+//   tsClient.do        which client performs the exchange, which context the request carries, a per-attempt deadline
+//                      derived with context.WithTimeout (none today), the two error checks after Do and ReadAll
+//   tsClient.Timestamp every statement that leaves the failover loop, with its guard; what the loop ranges over
+//   ratelimit.limiter  the order Wait -> Timestamp and the error check between them
+
+type c10Lit struct {
+	typ    string
+	keys   []string
+	vals   map[string]ast.Expr
+	node   *ast.CompositeLit
+	posOrd int
+}
+
+func c10CompositeLits(p *pkgInfo, fd *ast.FuncDecl, types ...string) []*c10Lit {
+	var out []*c10Lit
+	ast.Inspect(fd.Body, func(n ast.Node) bool {
+		cl, ok := n.(*ast.CompositeLit)
+		if !ok || cl.Type == nil {
+			return true
+		}
+		ty := printNode(p.fset, cl.Type)
+		for _, want := range types {
+			if ty == want {
+				l := &c10Lit{typ: ty, vals: map[string]ast.Expr{}, node: cl, posOrd: len(out)}
+				for _, el := range cl.Elts {
+					if kv, ok := el.(*ast.KeyValueExpr); ok {
+						k := printNode(p.fset, kv.Key)
+						l.keys = append(l.keys, k)
+						l.vals[k] = kv.Value
+					} else {
+						l.keys = append(l.keys, "<positional>")
+					}
+				}
+				sort.Strings(l.keys)
+				out = append(out, l)
+			}
+		}
+		return true
+	})
+	return out
+}
+
+func c10Norm(p *pkgInfo, n ast.Node) string {
+	return strings.Join(strings.Fields(printNode(p.fset, n)), " ")
+}
+
+func c10Timing(o *out) {
+	const tc = "lib/pkcs9/tsclient"
+	o.f("\n(* ---- time handling of the timestamp client (C10 round 3) *)\n")
+	o.f("Definition dur (x : Z) : Z := x. (* time.Duration(x): a count of nanoseconds *)\n")
+	p, fd := findFunc(tc, "", "New")
+	names := []string{"client_timeout_ns", "header_timeout_ns", "tls_timeout_ns", "dial_timeout_ns"}
+	if fd == nil || fd.Body == nil {
+		for _, n := range names {
+			o.brokenDef(n, "function "+tc+":.New not found")
+		}
+		return
+	}
+	confName := "conf"
+	if fd.Type.Params != nil && len(fd.Type.Params.List) > 0 && len(fd.Type.Params.List[0].Names) > 0 {
+		confName = fd.Type.Params.List[0].Names[0].Name
+	}
+	leaves := map[string]string{confName + ".Timeout": "conf_timeout"}
+	calls := map[string]string{"time.Duration": "dur"}
+	// local names bound once to a duration expression of conf.Timeout (e.g. `timeout := time.Second * time.Duration(conf.Timeout)`)
+	locals := map[string]string{}
+	bound := map[string]ast.Expr{} // every `name := expr` / `var name = expr`, for resolving literals passed by name
+	nAssign := map[string]int{}
+	ast.Inspect(fd.Body, func(n ast.Node) bool {
+		as, ok := n.(*ast.AssignStmt)
+		if !ok {
+			return true
+		}
+		for i, l := range as.Lhs {
+			if id, ok := l.(*ast.Ident); ok {
+				nAssign[id.Name]++
+				if len(as.Rhs) == len(as.Lhs) {
+					bound[id.Name] = as.Rhs[i]
+				}
+			}
+		}
+		return true
+	})
+	durExpr := func(e ast.Expr) (string, error) {
+		t := &tr{fset: p.fset, dir: tc, leaves: leaves, types: map[string]string{}, calls: calls, locals: locals}
+		c := t.expr(e)
+		return c, t.err
+	}
+	// guards: the chain of enclosing if statements of every statement of New
+	type guarded struct {
+		as     *ast.AssignStmt
+		guards []ast.Expr
+		inElse bool
+		other  bool // inside a loop / switch / closure: not understood
+	}
+	var assigns []guarded
+	var visit func(list []ast.Stmt, guards []ast.Expr, inElse, other bool)
+	visit = func(list []ast.Stmt, guards []ast.Expr, inElse, other bool) {
+		for _, st := range list {
+			switch x := st.(type) {
+			case *ast.AssignStmt:
+				assigns = append(assigns, guarded{x, guards, inElse, other})
+			case *ast.IfStmt:
+				if x.Init != nil {
+					if as, ok := x.Init.(*ast.AssignStmt); ok {
+						assigns = append(assigns, guarded{as, guards, inElse, other})
+					}
+				}
+				visit(x.Body.List, append(append([]ast.Expr{}, guards...), x.Cond), inElse, other)
+				switch e := x.Else.(type) {
+				case *ast.BlockStmt:
+					visit(e.List, append(append([]ast.Expr{}, guards...), x.Cond), true, other)
+				case *ast.IfStmt:
+					visit([]ast.Stmt{e}, append(append([]ast.Expr{}, guards...), x.Cond), true, other)
+				}
+			case *ast.BlockStmt:
+				visit(x.List, guards, inElse, other)
+			case *ast.ForStmt:
+				visit(x.Body.List, guards, inElse, true)
+			case *ast.RangeStmt:
+				visit(x.Body.List, guards, inElse, true)
+			case *ast.SwitchStmt:
+				for _, cc := range x.Body.List {
+					visit(cc.(*ast.CaseClause).Body, guards, inElse, true)
+				}
+			}
+		}
+	}
+	visit(fd.Body.List, nil, false, false)
+	// local duration variables, followed through the function in source order: `d := E` at the top level, later `d = E'`
+	// either at the top level or under ONE if without else (`if d <= 0 { d = defaultTimeout }` becomes a conditional).
+	// The value a name has when the client is built is what counts; a name written in any other way is dropped, so that a
+	// use of it is reported as not understood.
+	localSrc := map[string]string{}
+	var lateLocalWrites []ast.Node
+	for _, ga := range assigns {
+		as := ga.as
+		if len(as.Lhs) != 1 || len(as.Rhs) != 1 {
+			for _, l := range as.Lhs {
+				if id, ok := l.(*ast.Ident); ok {
+					delete(locals, id.Name)
+				}
+			}
+			continue
+		}
+		id, ok := as.Lhs[0].(*ast.Ident)
+		if !ok {
+			continue
+		}
+		if as.Tok == token.DEFINE {
+			delete(locals, id.Name)
+			if len(ga.guards) == 0 && !ga.other && strings.Contains(printNode(p.fset, as.Rhs[0]), "time.") {
+				if c, err := durExpr(as.Rhs[0]); err == nil {
+					locals[id.Name] = c
+					localSrc[id.Name] = c10Norm(p, as)
+				}
+			}
+			continue
+		}
+		old, known := locals[id.Name]
+		if !known {
+			continue
+		}
+		lateLocalWrites = append(lateLocalWrites, as)
+		if ga.other || ga.inElse || len(ga.guards) > 1 || as.Tok != token.ASSIGN {
+			delete(locals, id.Name)
+			continue
+		}
+		c, err := durExpr(as.Rhs[0])
+		if err != nil {
+			delete(locals, id.Name)
+			continue
+		}
+		if len(ga.guards) == 1 {
+			gt := &tr{fset: p.fset, dir: tc, leaves: leaves, types: map[string]string{}, calls: calls, locals: locals}
+			gc := gt.expr(ga.guards[0])
+			if gt.err != nil {
+				delete(locals, id.Name)
+				continue
+			}
+			locals[id.Name] = "(if " + gc + " then " + c + " else " + old + ")"
+			localSrc[id.Name] += "; if " + c10Norm(p, ga.guards[0]) + " { " + c10Norm(p, as) + " }"
+		} else {
+			locals[id.Name] = c
+			localSrc[id.Name] += "; " + c10Norm(p, as)
+		}
+	}
+	// resolve `&T{...}`, `T{...}`, `(&T{...})`, or a name bound once to one of those
+	var litOf func(e ast.Expr, typ string, depth int) *ast.CompositeLit
+	litOf = func(e ast.Expr, typ string, depth int) *ast.CompositeLit {
+		if depth > 4 || e == nil {
+			return nil
+		}
+		switch x := e.(type) {
+		case *ast.ParenExpr:
+			return litOf(x.X, typ, depth+1)
+		case *ast.UnaryExpr:
+			if x.Op == token.AND {
+				return litOf(x.X, typ, depth+1)
+			}
+		case *ast.CompositeLit:
+			if x.Type != nil && printNode(p.fset, x.Type) == typ {
+				return x
+			}
+		case *ast.Ident:
+			if nAssign[x.Name] == 1 {
+				return litOf(bound[x.Name], typ, depth+1)
+			}
+		}
+		return nil
+	}
+	keysOf := func(cl *ast.CompositeLit) ([]string, map[string]ast.Expr) {
+		vals := map[string]ast.Expr{}
+		var keys []string
+		if cl == nil {
+			return nil, vals
+		}
+		for _, el := range cl.Elts {
+			if kv, ok := el.(*ast.KeyValueExpr); ok {
+				k := printNode(p.fset, kv.Key)
+				keys = append(keys, k)
+				vals[k] = kv.Value
+			} else {
+				keys = append(keys, "<positional>")
+			}
+		}
+		sort.Strings(keys)
+		return keys, vals
+	}
+
+	// ---- which *http.Client ends up inside the tsClient value
+	clientVar := ""
+	for _, l := range c10CompositeLits(p, fd, "tsClient") {
+		var e ast.Expr
+		if v, ok := l.vals["client"]; ok {
+			e = v
+		} else if len(l.node.Elts) == 2 {
+			e = l.node.Elts[1]
+		}
+		if id, ok := e.(*ast.Ident); ok {
+			clientVar = id.Name
+		}
+	}
+	var clientLit *ast.CompositeLit
+	if clientVar != "" {
+		clientLit = litOf(bound[clientVar], "http.Client", 0)
+	}
+	if clientLit == nil || nAssign[clientVar] != 1 {
+		for _, n := range names {
+			o.brokenDef(n, "cannot identify the http.Client literal that tsclient.New stores in tsClient.client")
+		}
+		return
+	}
+	ckeys, cvals := keysOf(clientLit)
+	for _, w := range lateLocalWrites {
+		if w.Pos() > clientLit.Pos() {
+			if id, ok := w.(*ast.AssignStmt).Lhs[0].(*ast.Ident); ok {
+				delete(locals, id.Name) // changed after the client was built: its value at the literal is not the final one we computed
+			}
+		}
+	}
+	// later writes to fields of the client: an assignment to Timeout is taken over (under its guard, when it sits in an if
+	// without else); Transport may only be wrapped (RoundTripper decorators)
+	fieldWrites := []string{}
+	clientTimeoutCoq := "" // Coq term for the final value of client.Timeout
+	if cvals["Timeout"] != nil {
+		c, err := durExpr(cvals["Timeout"])
+		if err != nil {
+			clientTimeoutCoq = ""
+		} else {
+			clientTimeoutCoq = c
+		}
+	} else {
+		clientTimeoutCoq = "0"
+	}
+	clientTimeoutSrc := "not set"
+	if cvals["Timeout"] != nil {
+		clientTimeoutSrc = c10Norm(p, cvals["Timeout"])
+		if id, ok := cvals["Timeout"].(*ast.Ident); ok && localSrc[id.Name] != "" {
+			clientTimeoutSrc += " where " + localSrc[id.Name]
+		}
+	}
+	bad := ""
+	if clientTimeoutCoq == "" {
+		bad = "http.Client.Timeout = " + clientTimeoutSrc + " is not understood"
+	}
+	for _, ga := range assigns {
+		as := ga.as
+		for i, l := range as.Lhs {
+			sel, ok := l.(*ast.SelectorExpr)
+			if !ok {
+				continue
+			}
+			base := printNode(p.fset, sel.X)
+			if base != clientVar {
+				if strings.Contains(sel.Sel.Name, "Timeout") || strings.Contains(sel.Sel.Name, "Deadline") {
+					bad = "assignment to " + c10Norm(p, l) + " is not understood"
+				}
+				continue
+			}
+			fieldWrites = append(fieldWrites, c10Norm(p, as))
+			switch sel.Sel.Name {
+			case "Timeout":
+				if len(as.Rhs) != len(as.Lhs) || ga.other || ga.inElse || len(ga.guards) > 1 {
+					bad = "assignment to " + clientVar + ".Timeout in a position that is not understood: " + c10Norm(p, as)
+					continue
+				}
+				c, err := durExpr(as.Rhs[i])
+				if err != nil {
+					bad = clientVar + ".Timeout = " + c10Norm(p, as.Rhs[i]) + ": " + err.Error()
+					continue
+				}
+				if len(ga.guards) == 1 {
+					gt := &tr{fset: p.fset, dir: tc, leaves: leaves, types: map[string]string{}, calls: calls, locals: locals}
+					gc := gt.expr(ga.guards[0])
+					if gt.err != nil {
+						bad = "guard of the assignment to " + clientVar + ".Timeout: " + gt.err.Error()
+						continue
+					}
+					clientTimeoutCoq = "(if " + gc + " then " + c + " else " + clientTimeoutCoq + ")"
+					clientTimeoutSrc += "; if " + c10Norm(p, ga.guards[0]) + " { " + c10Norm(p, as) + " }"
+				} else {
+					clientTimeoutCoq = c
+					clientTimeoutSrc += "; " + c10Norm(p, as)
+				}
+			case "Transport":
+				ok := false
+				if len(as.Rhs) == len(as.Lhs) && !ga.other {
+					if ce, isCall := as.Rhs[i].(*ast.CallExpr); isCall && strings.HasPrefix(printNode(p.fset, ce.Fun), "promhttp.InstrumentRoundTripper") &&
+						len(ce.Args) >= 1 && printNode(p.fset, ce.Args[len(ce.Args)-1]) == clientVar+".Transport" {
+						ok = true // a decorator around the transport built above: timeouts unchanged
+					}
+				}
+				if !ok {
+					bad = "the transport is replaced after construction: " + c10Norm(p, as)
+				}
+			default:
+				bad = "write to " + clientVar + "." + sel.Sel.Name + " after construction"
+			}
+		}
+	}
+	// anything else that mentions the client's Timeout (passed by address, set through a helper) is not understood
+	ast.Inspect(fd.Body, func(n ast.Node) bool {
+		if ue, ok := n.(*ast.UnaryExpr); ok && ue.Op == token.AND {
+			if c10Norm(p, ue.X) == clientVar+".Timeout" {
+				bad = "address of " + clientVar + ".Timeout taken"
+			}
+		}
+		return true
+	})
+	emit := func(name string, e ast.Expr, what string) {
+		if bad != "" {
+			o.brokenDef(name, bad)
+			return
+		}
+		if e == nil {
+			o.f("Definition %s (conf_timeout : Z) : Z := 0. (* %s is not set: no limit *)\n", name, what)
+			return
+		}
+		c, err := durExpr(e)
+		if err != nil {
+			o.brokenDef(name, what+" = "+c10Norm(p, e)+": "+err.Error())
+			return
+		}
+		o.f("Definition %s (conf_timeout : Z) : Z :=\n  %s.\n(* %s = %s *)\n", name, c, what, c10Norm(p, e))
+	}
+	if bad != "" {
+		o.brokenDef("client_timeout_ns", bad)
+	} else {
+		o.f("Definition client_timeout_ns (conf_timeout : Z) : Z :=\n  %s.\n(* http.Client.Timeout: %s *)\n", clientTimeoutCoq, clientTimeoutSrc)
+	}
+	// ---- the transport literal
+	trLit := litOf(cvals["Transport"], "http.Transport", 0)
+	var tkeys []string
+	tvals := map[string]ast.Expr{}
+	if trLit == nil {
+		bad2 := "http.Client.Transport is not an http.Transport literal built in New (the default transport has its own timeouts)"
+		for _, n := range names[1:] {
+			o.brokenDef(n, bad2)
+		}
+	} else {
+		tkeys, tvals = keysOf(trLit)
+		emit("header_timeout_ns", tvals["ResponseHeaderTimeout"], "http.Transport.ResponseHeaderTimeout")
+		emit("tls_timeout_ns", tvals["TLSHandshakeTimeout"], "http.Transport.TLSHandshakeTimeout")
+		// dialer reached through DialContext / Dial / DialTLSContext
+		var dkeys []string
+		var dialTimeout ast.Expr
+		dialBad := ""
+		for _, k := range []string{"DialContext", "Dial", "DialTLSContext", "DialTLS"} {
+			v, ok := tvals[k]
+			if !ok {
+				continue
+			}
+			sel, isSel := v.(*ast.SelectorExpr)
+			var dl *ast.CompositeLit
+			if isSel {
+				dl = litOf(sel.X, "net.Dialer", 0)
+			}
+			if dl == nil {
+				dialBad = "http.Transport." + k + " = " + c10Norm(p, v) + " is not a method of a net.Dialer literal built in New"
+				continue
+			}
+			var dv map[string]ast.Expr
+			dkeys, dv = keysOf(dl)
+			dialTimeout = dv["Timeout"]
+			if _, has := dv["Deadline"]; has {
+				dialBad = "net.Dialer.Deadline is not modelled"
+			}
+		}
+		if dialBad != "" {
+			o.brokenDef("dial_timeout_ns", dialBad)
+		} else {
+			emit("dial_timeout_ns", dialTimeout, "net.Dialer.Timeout (through http.Transport.DialContext)")
+		}
+		o.f("Definition dialer_fields : list string := %s.\n", c10StrList(dkeys))
+	}
+	o.f("Definition client_fields : list string := %s. (* fields of the http.Client literal in tsclient.New *)\n", c10StrList(ckeys))
+	o.f("Definition transport_fields : list string := %s. (* fields of its http.Transport literal *)\n", c10StrList(tkeys))
+	o.f("Definition client_field_writes : list string := %s. (* later assignments to fields of that client *)\n", c10StrList(fieldWrites))
+
+	// ---- tsClient.do
+	pd, dd := findFunc(tc, "tsClient", "do")
+	if dd == nil || dd.Body == nil {
+		o.brokenDef("do_uses_configured_client", "function "+tc+":tsClient.do not found")
+	} else {
+		recv := "c"
+		if dd.Recv != nil && len(dd.Recv.List) == 1 && len(dd.Recv.List[0].Names) == 1 {
+			recv = dd.Recv.List[0].Names[0].Name
+		}
+		ctxParam := ""
+		for _, f := range dd.Type.Params.List {
+			if strings.Join(strings.Fields(printNode(pd.fset, f.Type)), "") == "context.Context" && len(f.Names) > 0 {
+				ctxParam = f.Names[0].Name
+			}
+		}
+		var httpCalls, ctxDerive []string
+		doArg := ""
+		var deriveExpr ast.Expr
+		deriveVar := ""
+		ast.Inspect(dd.Body, func(n ast.Node) bool {
+			switch x := n.(type) {
+			case *ast.CallExpr:
+				fn := c10Norm(pd, x.Fun)
+				switch {
+				case fn == recv+".client.Do" && len(x.Args) == 1:
+					httpCalls = append(httpCalls, fn)
+					doArg = c10Norm(pd, x.Args[0])
+				case strings.HasPrefix(fn, "http.") && (strings.HasSuffix(fn, ".Do") || fn == "http.Post" || fn == "http.Get" || fn == "http.PostForm" || fn == "http.Head"),
+					strings.HasSuffix(fn, ".Do") && fn != recv+".client.Do", strings.HasSuffix(fn, ".RoundTrip"):
+					httpCalls = append(httpCalls, fn)
+				case fn == "context.WithTimeout" || fn == "context.WithDeadline" || fn == "context.WithCancel" || fn == "context.WithoutCancel" ||
+					fn == "context.Background" || fn == "context.TODO" || fn == "context.WithTimeoutCause" || fn == "context.WithDeadlineCause":
+					ctxDerive = append(ctxDerive, c10Norm(pd, x))
+				}
+			case *ast.AssignStmt:
+				if len(x.Rhs) == 1 && len(x.Lhs) == 2 {
+					if ce, ok := x.Rhs[0].(*ast.CallExpr); ok && c10Norm(pd, ce.Fun) == "context.WithTimeout" && len(ce.Args) == 2 &&
+						c10Norm(pd, ce.Args[0]) == ctxParam {
+						if id, ok := x.Lhs[0].(*ast.Ident); ok {
+							deriveVar, deriveExpr = id.Name, ce.Args[1]
+						}
+					}
+				}
+			}
+			return true
+		})
+		o.f("Definition do_uses_configured_client : bool := %v. (* HTTP calls in tsClient.do: %s *)\n",
+			len(httpCalls) == 1 && httpCalls[0] == recv+".client.Do", strings.Join(httpCalls, ", "))
+		// the context carried by the request
+		switch {
+		case len(ctxDerive) == 0 && ctxParam != "" && strings.HasSuffix(doArg, ".WithContext("+ctxParam+")"):
+			o.f("Definition do_request_ctx : Z := 0. (* the request carries the caller's context: %s *)\n", doArg)
+			o.f("Definition attempt_ctx_timeout_ns (conf_timeout : Z) : Z := 0. (* tsClient.do derives no per-attempt deadline *)\n")
+		case len(ctxDerive) == 1 && deriveExpr != nil && strings.HasSuffix(doArg, ".WithContext("+deriveVar+")"):
+			// `ctx2, cancel := context.WithTimeout(ctx, d)` ... `Do(req.WithContext(ctx2))`: a per-attempt deadline under the caller's context
+			t := &tr{fset: pd.fset, dir: tc, leaves: map[string]string{recv + ".conf.Timeout": "conf_timeout"}, types: map[string]string{}, calls: calls, locals: map[string]string{}}
+			c := t.expr(deriveExpr)
+			if t.err != nil {
+				o.brokenDef("attempt_ctx_timeout_ns", "context.WithTimeout duration "+c10Norm(pd, deriveExpr)+": "+t.err.Error())
+			} else {
+				o.f("Definition do_request_ctx : Z := 0. (* the request carries a context derived from the caller's: %s *)\n", doArg)
+				o.f("Definition attempt_ctx_timeout_ns (conf_timeout : Z) : Z :=\n  %s.\n(* %s *)\n", c, ctxDerive[0])
+			}
+		default:
+			o.brokenDef("do_request_ctx", fmt.Sprintf("context handling of tsClient.do not understood: Do(%s), derivations %v", doArg, ctxDerive))
+		}
+		dl := map[string]string{"err != nil": "failed", "err == nil": "(negb failed)"}
+		o.condOf(funcSpec{dir: tc, recv: "tsClient", name: "do", coqName: "do_transport_failed", params: "(failed : bool)", retType: "bool", leaves: dl}, "if:err", 1)
+		o.condOf(funcSpec{dir: tc, recv: "tsClient", name: "do", coqName: "do_read_failed", params: "(failed : bool)", retType: "bool", leaves: dl}, "if:err", 2)
+		// every if statement of do, in order (so that a new early return is seen)
+		var conds []string
+		ast.Inspect(dd.Body, func(n ast.Node) bool {
+			if is, ok := n.(*ast.IfStmt); ok {
+				conds = append(conds, c10Norm(pd, is.Cond))
+			}
+			return true
+		})
+		o.f("Definition do_conditions : list string := %s.\n", c10StrList(conds))
+	}
+
+	// ---- tsClient.Timestamp: the failover loop
+	pt, td := findFunc(tc, "tsClient", "Timestamp")
+	if td == nil || td.Body == nil {
+		o.brokenDef("ts_loop_exits", "function "+tc+":tsClient.Timestamp not found")
+		return
+	}
+	var loops []*ast.RangeStmt
+	nFor := 0
+	derives := []string{}
+	ast.Inspect(td.Body, func(n ast.Node) bool {
+		switch x := n.(type) {
+		case *ast.RangeStmt:
+			loops = append(loops, x)
+		case *ast.ForStmt:
+			nFor++
+		case *ast.CallExpr:
+			if fn := c10Norm(pt, x.Fun); strings.HasPrefix(fn, "context.") {
+				derives = append(derives, c10Norm(pt, x))
+			}
+		case *ast.GoStmt:
+			derives = append(derives, "go statement")
+		}
+		return true
+	})
+	if len(loops) != 1 || nFor != 0 {
+		o.brokenDef("ts_loop_exits", fmt.Sprintf("expected exactly one range loop in tsClient.Timestamp, found %d range / %d for", len(loops), nFor))
+		return
+	}
+	loop := loops[0]
+	var exits, attempts []string
+	var walk func(list []ast.Stmt, guard []string)
+	walkStmt := func(s ast.Stmt, guard []string) {}
+	g := func(guard []string) string {
+		if len(guard) == 0 {
+			return "always"
+		}
+		return strings.Join(guard, " && ")
+	}
+	walkStmt = func(s ast.Stmt, guard []string) {
+		switch x := s.(type) {
+		case *ast.ReturnStmt:
+			exits = append(exits, g(guard)+" => "+c10Norm(pt, x))
+		case *ast.BranchStmt:
+			exits = append(exits, g(guard)+" => "+c10Norm(pt, x))
+		case *ast.IfStmt:
+			c := c10Norm(pt, x.Cond)
+			if x.Init != nil {
+				walkStmt(x.Init, guard)
+				c = c10Norm(pt, x.Init) + "; " + c
+			}
+			walk(x.Body.List, append(append([]string{}, guard...), c))
+			switch e := x.Else.(type) {
+			case *ast.BlockStmt:
+				walk(e.List, append(append([]string{}, guard...), "!("+c+")"))
+			case *ast.IfStmt:
+				walkStmt(e, append(append([]string{}, guard...), "!("+c+")"))
+			}
+		case *ast.BlockStmt:
+			walk(x.List, guard)
+		case *ast.ForStmt, *ast.RangeStmt, *ast.SwitchStmt, *ast.TypeSwitchStmt, *ast.SelectStmt, *ast.GoStmt, *ast.DeferStmt, *ast.LabeledStmt:
+			exits = append(exits, g(guard)+" => NOT UNDERSTOOD: "+trunc200(c10Norm(pt, x)))
+		case *ast.ExprStmt:
+			if ce, ok := x.X.(*ast.CallExpr); ok && c10Norm(pt, ce.Fun) == "panic" {
+				exits = append(exits, g(guard)+" => "+c10Norm(pt, x))
+			}
+		case *ast.AssignStmt:
+			for _, r := range x.Rhs {
+				if ce, ok := r.(*ast.CallExpr); ok && strings.HasSuffix(c10Norm(pt, ce.Fun), ".do") {
+					attempts = append(attempts, g(guard)+" => "+c10Norm(pt, x))
+				}
+			}
+		}
+	}
+	walk = func(list []ast.Stmt, guard []string) {
+		for _, s := range list {
+			walkStmt(s, guard)
+		}
+	}
+	walk(loop.Body.List, nil)
+	key, val := "", ""
+	if loop.Key != nil {
+		key = c10Norm(pt, loop.Key)
+	}
+	if loop.Value != nil {
+		val = c10Norm(pt, loop.Value)
+	}
+	o.f("Definition ts_loop_header : string := %s. (* what the failover loop ranges over *)\n", c10Str(key+", "+val+" := range "+c10Norm(pt, loop.X)))
+	o.f("Definition ts_loop_attempts : list string := %s. (* calls of tsClient.do inside the loop, with their guards *)\n", c10StrList(attempts))
+	o.f("Definition ts_loop_exits : list string := %s. (* every statement that leaves the loop body early, with its guard *)\n", c10StrList(exits))
+	o.f("Definition ts_context_derivations : list string := %s. (* context.* calls and go statements in tsClient.Timestamp *)\n", c10StrList(derives))
+
+	// ---- rate limiter in front of the client
+	const rl = "lib/pkcs9/ratelimit"
+	o.callOrder(rl, "limiter", "Timestamp", "limiter_order", []string{"Wait", "Timestamp"})
+	o.condOf(funcSpec{dir: rl, recv: "limiter", name: "Timestamp", coqName: "limiter_wait_failed", params: "(failed : bool)", retType: "bool",
+		leaves: map[string]string{"err != nil": "failed", "err == nil": "(negb failed)"}}, "if:err")
+	o.hasStmt(rl, "limiter", "Timestamp", `return l.Timestamper.Timestamp(ctx, req)`, "limiter_passes_ctx_and_request")
+}
+
+func trunc200(s string) string {
+	if len(s) > 200 {
+		return s[:200]
+	}
+	return s
 }
